@@ -65,6 +65,8 @@ struct Sig {
 #[derive(Default, Clone, Debug)]
 pub struct GenStats {
     pub shadowing_binders: usize,
+    /// binders reusing the name of an earlier binder of the same definition that is not in scope
+    pub sibling_binders: usize,
     pub labels: usize,
     pub gotos: usize,
     pub news: usize,
@@ -84,6 +86,8 @@ pub struct Gen<'a> {
     helpers: HashMap<Ty, String>,
     helper_defs: Vec<Def>,
     used_in_def: HashSet<String>,
+    /// binder names of the current definition in order of introduction (name, is covariable)
+    used_order: Vec<(String, bool)>,
     cur: usize,
     taken_def_names: HashSet<String>,
     pub stats: GenStats,
@@ -153,6 +157,7 @@ impl<'a> Gen<'a> {
             helpers: HashMap::new(),
             helper_defs: vec![],
             used_in_def: HashSet::new(),
+            used_order: vec![],
             cur: 0,
             taken_def_names: HashSet::new(),
             stats: GenStats::default(),
@@ -446,6 +451,22 @@ impl<'a> Gen<'a> {
                 return b.name.clone();
             }
         }
+        // reuse the name of an earlier binder of this definition whose scope has ended (sibling
+        // scopes: no shadowing, so renaming of shadowing binders does not separate the two)
+        if !self.cfg.unique_binders && !self.used_order.is_empty() && self.c.prob(self.cfg.reuse) {
+            let cands: Vec<String> = self
+                .used_order
+                .iter()
+                .rev()
+                .filter(|(n, k)| *k == cns && !env.iter().any(|b| &b.name == n) && !avoid.contains(n) && Some(n) != fuel_name.as_ref())
+                .map(|(n, _)| n.clone())
+                .take(4)
+                .collect();
+            if !cands.is_empty() {
+                self.stats.sibling_binders += 1;
+                return cands[self.c.choose(cands.len())].clone();
+            }
+        }
         let base = if self.cfg.adversarial && self.c.prob(110) {
             ADV_VAR_POOL[self.c.choose(ADV_VAR_POOL.len())]
         } else if cns {
@@ -470,6 +491,9 @@ impl<'a> Gen<'a> {
             self.stats.shadowing_binders += 1;
         }
         self.used_in_def.insert(name.clone());
+        if !self.used_order.iter().any(|(n, _)| n == &name) {
+            self.used_order.push((name.clone(), cns));
+        }
         name
     }
 
@@ -1026,6 +1050,7 @@ impl<'a> Gen<'a> {
         for i in 0..self.sigs.len() {
             self.cur = i;
             self.used_in_def.clear();
+            self.used_order.clear();
             let sig = self.sigs[i].clone();
             for p in &sig.params {
                 self.used_in_def.insert(p.name.clone());
